@@ -674,7 +674,7 @@ func (g *c19gen) context(format int, chained bool) (string, gtab.Subtable) {
 }
 
 func c19meaning(c *mon.Ctx) {
-	c.Stratum("meaning", c.N(3000, 60000), func(k *mon.Case) {
+	c.Stratum("meaning", c.N(3000, 120000), func(k *mon.Case) {
 		r := k.Rng
 		kind := (k.Index / 10) % 3
 		n := 5 + r.IntN(30)
